@@ -149,7 +149,7 @@ CHECKS.update({
 CHECKS.update({
  "C19": ("model_checking", "shx",
   "explicit-state BFS over histories of the real newpolicy.sh run under a bash DEBUG trap: crash points = SIGKILL before every simple command of every run, events = commits (good / bad, revertible or not) and runs; directory trees as states with canonical de-duplication; database invariants after every event plus a liveness step (one undisturbed run from every reached state); concurrency: second run to completion while the first is paused at each step",
-  "From 3 initial states all event sequences to depth 2 (thorough 3) incl. a kill before each of the ~60-120 steps of each run are executed with the real script, real git and real flock (1335 transitions + 1275 liveness runs quick).",
+  "From 4 initial states (empty, one run, a history with two bad commits, a good commit no run has seen) all event sequences to depth 2 (thorough 3) incl. a kill before each of the ~60-120 steps of each run are executed with the real script, real git and real flock (1335 transitions + 1275 liveness runs quick).",
   "Stub compiler and mail; kills inside git/mv/ln are outside; sudo wrapper not exercised.",
   "DESIGN.md 4 C19"),
 })
